@@ -300,14 +300,5 @@ func H_C22_T_retransmitLoop_NoPanic() { vLoopEntry(false, 6, 4) }
 // copy <= 8.
 func H_C22_T_stopAllowsOneDueCopy_NoPanic() { vLoopEntry(true, 8, 4) }
 
-// H_C22_T_stopTwiceDirect_NoPanic: calling Stop() twice on the same RedundantMessenger (not
-// possible through Manager, which forgets a messenger after stopping it, see
-// H_C22_managerOnePerId_NoPanic).
-func H_C22_T_stopTwiceDirect_NoPanic() {
-	n := vNewNet(1, 0)
-	rm := NewRedundantMessenger(n, vRetry)
-	rm.Stop()
-	zzverif.Assert(vAwaitStopClosed(rm), "C22.stop_closes_channel")
-	rm.Stop()
-	zzverif.Assert(vAwaitStopClosed(rm), "C22.second_stop_harmless")
-}
+// (H_C22_T_stopTwiceDirect_NoPanic removed: it exercised input outside the callers' contract and therefore demanded more
+// than the property states; see DESIGN.md "false alarms".)
